@@ -281,8 +281,12 @@ class RZILTransformer(Transformer):
                 )
             if src.value_type.bit_width != 64:
                 src = self.init_a_cast(ValueType(False, 64), src)
-            return self.add_op(
-                Assignment("set_return_val", AssignmentType.ASSIGN, ret_val, src)
+            # A hybrid in the returned expression ("return q++;") must be executed here.
+            # Not before all other statements.
+            return self.chk_hybrid_dep(
+                self.add_op(
+                    Assignment("set_return_val", AssignmentType.ASSIGN, ret_val, src)
+                )
             )
         if isinstance(items[0], Token) and items[0].type in ["GOTO", "CONTINUE", "BREAK"]:
             # Would be dropped silently otherwise.
